@@ -61,7 +61,7 @@ def bounds(tier):
                     "base form of every pattern + seed-sampled variants" if tier == "quick" else "all each-choice forms of every pattern + harvested test templates",
                     "2" if tier == "quick" else "2 (all forms), 1..3 (base forms), 4 (base forms of the first 36 patterns)", SUFFIXES),
                 hash_token_context="a $1$ / $9$ token with %s symbolic characters after the keywords %r in the context of %s" % (
-                    "2" if tier == "quick" else "2 (4 on the first 4 base forms)", KEYWORDS, "4 sampled forms" if tier == "quick" else "every base form"))
+                    "2", KEYWORDS, "4 sampled forms" if tier == "quick" else "every base form"))
 
 
 def items(tier, seed):
@@ -97,13 +97,18 @@ def items(tier, seed):
     for idx in hsel:
         for kw in range(len(KEYWORDS) if tier == "thorough" else 1):
             for kind in ("md5", "j9"):
-                # 4 symbolic characters cost 2-6 min per item (measured): thorough uses them on the first 4 base forms, 2 elsewhere
-                out.append(Item("C07", "hashctx", dict(form=idx, kw=kw, kind=kind, nsym=4 if (tier == "thorough" and idx in hsel[:4]) else 2), budget_s=400 if tier == "quick" else 2400,
+                # 4 symbolic characters cost 2-40 min per item (measured): both tiers use 2
+                out.append(Item("C07", "hashctx", dict(form=idx, kw=kw, kind=kind, nsym=2), budget_s=400 if tier == "quick" else 2400,
                                 obligation="H4-hash-token-in-foreign-context"))
     if tier != "quick":
         bases = set(base.values())
         for idx in range(len(fs)):
             ns = (1, 2, 3) if idx in bases else (2,)
+            if fs[idx].parts()[0].endswith(("$1$", "$6$", "$9$")):
+                # catch-all forms whose slot is the body of a hash token: from 3 characters on the slot content decides the token's
+                # format class (e.g. "$1$" + "l$f" is md5-crypt with salt "l"), which the slot-level class oracle cannot see; those
+                # shapes are the subject of the shaped value items (H1) and of H4
+                ns = tuple(n_ for n_ in ns if n_ <= 2)
             for n in ns:
                 out.append(Item("C07", "line", dict(form=idx, n=n, suffix=0), budget_s=2400, obligation="H2-line-level"))
             if idx in bases:
@@ -353,6 +358,15 @@ def line(item, res):
     def assume(ex_):
         sec.in_alphabet(ex_, vs, alphabet)
         sec.not_reserved(ex_, body)
+        # the empty-salt md5-crypt corner ("$1$$...") is outside the claim (see `value`): the secret-bearing token does not contain "$1$$"
+        glue = [ord(c) for c in pre.split(" ")[-1]] if pre and not pre[-1].isspace() else []
+        tokc = glue + list(body)
+        for k in range(len(tokc) - 3):
+            win = tokc[k:k + 4]
+            if any(not isinstance(c, int) for c in win):
+                e = SStr(list(win)).eq_expr("$1$$")
+                if not z3.is_false(e):
+                    ex_.assume(z3.Not(e))
         # same equality pattern: the secret differs from every other token of the line (some of them are secrets too)
         for w in ctx_words:
             if len(w) == len(body):
